@@ -135,7 +135,7 @@ class Ctx:
                 continue
             seen_known.add(m['signature'])
             lines.append('KNOWN-FINDING: property=%s %s' % (self.pid, m['what']))
-        rdir = os.path.join(VERIF, 'replays', self.pid)
+        rdir = os.path.join(os.environ.get('VF_REPLAY_DIR') or os.path.join(VERIF, 'replays'), self.pid)
         seen_sig = set()
         for f in viol:
             if f.signature in seen_sig:
@@ -214,8 +214,9 @@ class Ctx:
         cov.update(self.extra)
         ev = {'property_id': self.pid, 'tier': self.tier, 'seed': self.seed, 'level': self.level, 'coverage': cov,
               'assumptions': self.assumptions, 'wall_s': round(wall, 2), 'violations': nviol}
-        os.makedirs(os.path.join(VERIF, 'evidence'), exist_ok=True)
-        with open(os.path.join(VERIF, 'evidence', self.pid + '.json'), 'w') as fh:
+        evdir = os.environ.get('VF_EVIDENCE_DIR') or os.path.join(VERIF, 'evidence')
+        os.makedirs(evdir, exist_ok=True)
+        with open(os.path.join(evdir, self.pid + '.json'), 'w') as fh:
             json.dump(ev, fh, indent=1, default=str)
 
 
